@@ -346,9 +346,9 @@ type hmodel struct {
 	pret map[string][2]string
 }
 
-func histOps(filters []string, rnames []string) []hop {
+func histOps(filters []string, rnames []string, nsubs int) []hop {
 	var ops []hop
-	for s := 0; s < 2; s++ {
+	for s := 0; s < nsubs; s++ {
 		for _, f := range filters {
 			for q := byte(0); q <= 2; q++ {
 				ops = append(ops, hop{kind: 'S', sub: s, filter: f, qos: q})
@@ -375,8 +375,12 @@ func allNames() []string {
 }
 
 func histories(e *env, filters, rnames []string, depthAll, depthBFS int) {
-	ops := histOps(filters, rnames)
-	subsObj := []*sub{{"s1"}, {"s2"}}
+	historiesN(e, filters, rnames, depthAll, depthBFS, 2)
+}
+
+func historiesN(e *env, filters, rnames []string, depthAll, depthBFS, nsubs int) {
+	ops := histOps(filters, rnames, nsubs)
+	subsObj := []*sub{{"s1"}, {"s2"}, {"s3"}, {"s4"}}
 	probeFilters := append(append([]string{}, filters...), "#", "+", "+/+", "a/+", "+/b")
 	run := func(hist []int) (string, string, int) {
 		mt := topics.NewMemProvider()
@@ -547,6 +551,12 @@ func C06(c *core.Ctx) {
 		histories(e, []string{"a/", "/a", "a//b", "+/", "a/#"}, []string{"a/", "/a", "a"}, 3, 5)
 	} else {
 		histories(e, []string{"a", "a/+", "a/#", "#"}, []string{"a", "a/b"}, 3, 5)
+	}
+	// several subscribers on the same filters: removal in the middle of a node's list
+	if c.Thorough() {
+		historiesN(e, []string{"a", "a/+"}, nil, 5, 7, 4)
+	} else {
+		historiesN(e, []string{"a", "a/+"}, nil, 4, 6, 3)
 	}
 }
 
